@@ -991,6 +991,33 @@ int main(int argc, char **argv) {
             int r, term = 0;
             size_t i;
             if(s < 0 || s >= NSLOTS || !slots[s].td || !slots[s].ptr) { fprintf(o, "R chk error=badslot\n"); continue; }
+            if(arg(kv, n, "exact")) {
+                /* buffers of exactly the message length and one byte either side (heap, so that ASan sees the edges) */
+                char big[512];
+                size_t bl = sizeof(big), want;
+                int r0, d;
+                lib_begin();
+                r0 = asn_check_constraints(slots[s].td, slots[s].ptr, big, &bl);
+                lib_end();
+                fprintf(o, "R chkx rc=%d len=%zu", r0, r0 ? bl : (size_t)0);
+                want = r0 ? bl : 8;
+                for(d = -1; d <= 2; d++) {
+                    size_t sz = (size_t)((long)want + d), el = sz, k;
+                    char *xb;
+                    int rr, tt = 0;
+                    if(sz == 0) continue;
+                    xb = malloc(sz);
+                    memset(xb, 'Z', sz);
+                    lib_begin();
+                    rr = asn_check_constraints(slots[s].td, slots[s].ptr, xb, &el);
+                    lib_end();
+                    for(k = 0; k < sz; k++) if(!xb[k]) { tt = 1; break; }
+                    fprintf(o, " sz%d=%zu:%d:%zu:%d", d + 1, sz, rr, el, tt);
+                    free(xb);
+                }
+                fprintf(o, "\n");
+                continue;
+            }
             errbuf = malloc(eb > 0 ? (size_t)eb : 1);
             memset(errbuf, 'Z', eb > 0 ? (size_t)eb : 1);
             lib_begin();
